@@ -426,8 +426,9 @@ func (r *rewriter) rewriteGo(g *ast.GoStmt) ast.Stmt {
 	case *ast.FuncLit:
 		keepInline = true
 	case *ast.Ident:
-		if _, ok := r.info.Uses[f].(*types.Func); ok {
-			keepInline = true // package-level function
+		switch r.info.Uses[f].(type) {
+		case *types.Func, *types.Builtin:
+			keepInline = true // package-level function or builtin
 		}
 	case *ast.SelectorExpr:
 		if obj, ok := r.info.Uses[f.Sel].(*types.Func); ok {
